@@ -47,6 +47,9 @@ def declare(E):
                requires={"peer_point_was_validated_on_curve": "ghost('point_validated')"}, ensures=["len(result) >= 1"])
     E.contract("lib:X25519PublicKey.from_public_bytes", argnames=["self", "data"], returns="opaque:X25519Pub",
                raises={"ValueError": "True"})
+    # (the name resolves to the library class: a classmethod called with the bytes only)
+    E.contract("cryptography.hazmat.primitives.asymmetric.x25519.X25519PublicKey.from_public_bytes", argnames=["data"],
+               returns="opaque:X25519Pub", raises={"ValueError": "len(data) != 32"})
     E.contract("X25519Priv.exchange", argnames=["self", "peer"], returns="bytes", ensures=["len(result) == 32"])
     E.contract("lib:bytes_eq", argnames=["a", "b"], returns="bool", ensures=["result == (a == b)"])
 
@@ -81,13 +84,13 @@ def declare(E):
     handler(GX + "_parse_kexdh_gex_reply", ensures={"peer_f_was_in_range": "1 <= self.f and self.f <= self.p - 1",
                                                      "keys_only_after_signature_check": "implies(ghost('activated'), ghost('verified'))"})
     EC = "paramiko.kex_ecdh_nist.KexNistp256."
-    handler(EC + "_parse_kexecdh_init", extra_raises={"ValueError": "not ghost('derived')"})
-    handler(EC + "_parse_kexecdh_reply", extra_raises={"ValueError": "not ghost('derived')"},
+    handler(EC + "_parse_kexecdh_init")
+    handler(EC + "_parse_kexecdh_reply",
             ensures={"keys_only_after_signature_check": "implies(ghost('activated'), ghost('verified'))"})
     C2 = "paramiko.kex_curve25519.KexCurve25519."
     E.contract(C2 + "_perform_exchange", params={"peer_key": "opaque:X25519Pub"},
                ensures={"shared_secret_is_not_all_zero": "result != bytes(32) and len(result) == 32"},
                raises={"SSHException": "True"}, returns="bytes", modifies=[])
-    handler(C2 + "_parse_kexecdh_init", extra_raises={"ValueError": "not ghost('derived')"})
-    handler(C2 + "_parse_kexecdh_reply", extra_raises={"ValueError": "not ghost('derived')"},
+    handler(C2 + "_parse_kexecdh_init")
+    handler(C2 + "_parse_kexecdh_reply",
             ensures={"keys_only_after_signature_check": "implies(ghost('activated'), ghost('verified'))"})
